@@ -111,6 +111,17 @@ def case_ll(B, cfg):
                 j = j2 + 1
             k += len(ts)
         B.eq('sum(pointwise)=value', np.sum(pw), value)
+    # the order of evaluations does not matter: pointwise values right
+    # after a gradient evaluation (sensitivities still switched on)
+    if len(pw) == len(flat):
+        try:
+            ll.evaluateS1(th)
+            pw2 = ll.compute_pointwise_ll(th)
+        except Exception as e:
+            B.fact('no-exception:pointwise after evaluateS1', False, repr(e))
+            return
+        B.fact('no-exception:pointwise after evaluateS1', True)
+        B.eq('sum(pointwise) after evaluateS1 = value', np.sum(pw2), value)
     if cfg.get('posterior', False):
         prior = SymPrior(B, len(theta))
         post = chi.LogPosterior(ll, prior)
